@@ -1,9 +1,17 @@
 """C17 — simulation input export is complete and faithful (DESIGN.md 6.16)."""
-import json, copy, math
+import json, copy, math, time
 from decimal import Decimal, Context
 from fractions import Fraction
 from . import core
-from .core import cz, copt, clist, cstr, cbool
+from .core import copt, clist, cstr, cbool
+
+
+def cz(z):
+    """Coq Z literal; long numbers in hexadecimal (Coq reads a decimal literal in quadratic time: 30 ms for 120 digits)"""
+    if abs(z) < 10 ** 18:
+        return core.cz(z)
+    return f"(-{hex(-z)})" if z < 0 else hex(z)
+
 
 IMPORTS = ("From Coq Require Import String Ascii.\n"
            "Require Import Hdl21.Base.PyInt Hdl21.Spec.SimSpec Hdl21.Model.SimExport Hdl21.Corr.C03 Hdl21.Corr.C17.\n"
@@ -968,8 +976,11 @@ def eval_stream(run, name, cases, chunk=150):
     outs = core.run_worker_sharded("c17", cases, common=dict(kind="case"))
     strs = [c_case(c, o) for c, o in zip(cases, outs)]
     fname = name.replace("-", "_")
-    bad = core.coq_eval_cases("C17", fname, IMPORTS, "main_case", strs, "run_cases chk_main", chunk=chunk)
-    rnd = core.coq_eval_cases("C17", fname + "_round", IMPORTS, "main_case", strs, "run_cases chk_round", chunk=chunk)
+    # one pass per case file: code = chk_main + 4 * chk_round (parsing the cases dominates); chunks sized to occupy all workers
+    chunk = min(chunk, max(20, -(-len(strs) // (2 * core.NPROC))))
+    both = core.coq_eval_cases("C17", fname, IMPORTS, "main_case", strs, "run_cases chk_both", chunk=chunk)
+    bad = [(i, c % 4) for i, c in both if c % 4]
+    rnd = [(i, c // 4) for i, c in both if c // 4]
     return outs, bad, rnd
 
 
@@ -1029,7 +1040,9 @@ def run(run, tier, seed, replay=None):
 
     def do(name, cases, **extra):
         nonlocal total_round, py_round, all_cases
+        t0 = time.time()
         outs, bad, rnd = eval_stream(run, name, cases)
+        extra["wall_s"] = round(time.time() - t0, 1)
         cover.add(cases, outs)
         coq_cnt = sum(c for _, c in rnd)
         py_cnt = sum(1 for o in outs for e in o["ftab"] if not e[3])
